@@ -1,6 +1,106 @@
+import NbioVerif.Lemmas.WsRfcMain
 import NbioVerif.Lemmas.C13Table
-/-! C13 — frame validation follows RFC 6455 (property theorems; see docs/ws.md) -/
+/-! C13 — WebSocket frame validation follows RFC 6455.
+
+    Specification: `Rfc.run` over `Rfc.decode` (Model/Rfc6455.lean), an independent transcription of RFC 6455 §5.1, §5.2,
+    §5.4, §5.5, §7.4.1, §8.1 and RFC 7692 §6 (twin of the Go predicate in harness/cmd/hws/ref.go).
+    Model: `Ws.feed` = successive `Conn.Parse` calls on any segmentation of any byte string.
+    `Agree g e i0 r v` (Lemmas/WsRfcRun.lean) says what "Parse did what the RFC prescribes" means:
+      v accepts            ⇒ no error, conn open, and exactly the RFC's deliveries / pong / close replies happened, in order;
+      v = closed           ⇒ the close frame was answered by a close frame, the conn is closed;
+      v rejects at frame i ⇒ Parse failed or the conn was closed, and before that exactly the RFC's events happened — in
+                             particular nothing of the message containing the offending frame was delivered;
+      a trailing incomplete frame whose header is already invalid may or may not be refused early. -/
 namespace Ws
+
+/-- the RFC predicate with the masking direction enforced (§5.1) -/
+def rfcStrict (g : Cfg) (e : Env) : Rfc.Cfg := { rfcOf g e with strict := true }
+
+/-- C13 (main theorem; masking direction aside): for every byte string, every segmentation of it into Parse calls, every
+    role, limit and compression setting, mask keys and inflater behaviour, Parse accepts exactly the frame sequences the
+    RFC allows, with the same deliveries and replies, and fails the connection on the others without delivering the
+    offending message. (`readLimit = 0`: the read-limit test is about segments, not frames.) -/
+theorem c13_partial (g : Cfg) (e : Env) (hl : g.readLimit = 0) (segs : List Bytes) :
+    Agree g e 0 (feed g e {} segs [])
+      (Rfc.run (rfcOf g e) {} 0 [] (Rfc.decode (segs.flatten.length + 1) segs.flatten)) := by
+  have hw : Within g {} := by intro _; simp [msgLen, K.len]
+  have hnf : nextFrame g {} = .need := by simp [nextFrame, decodeHdr]
+  have hobs := feed_flatten g e hl segs {} [] hw hnf
+  have hrun := run_agree g e 0 segs.flatten.length { cache := [] ++ segs.flatten, k := {} } [] {} 0 []
+    (by simp) hw inv_init rfl rfl
+  simp only [List.nil_append] at hrun hobs
+  have hk : (feed g e {} segs []).s.k = (run g e { cache := segs.flatten, k := {} } []).s.k := by
+    have := congrArg (fun o => o.2.2.1) hobs; simpa [PR.obs] using this
+  have ha : (feed g e {} segs []).acts = (run g e { cache := segs.flatten, k := {} } []).acts := by
+    have := congrArg (fun o => o.1) hobs; simpa [PR.obs] using this
+  have he : (feed g e {} segs []).err = (run g e { cache := segs.flatten, k := {} } []).err := by
+    have := congrArg (fun o => o.2.1) hobs; simpa [PR.obs] using this
+  unfold Agree at hrun ⊢
+  rw [hk, ha, he]
+  exact hrun
+
+theorem hdrCheck_strict (rg : Rfc.Cfg) (st : Rfc.St) (f : Rfc.Frame) (h : f.masked = rg.server) :
+    Rfc.hdrCheck { rg with strict := true } st f = Rfc.hdrCheck { rg with strict := false } st f := by
+  unfold Rfc.hdrCheck
+  simp [h]
+
+theorem run_strict (rg : Rfc.Cfg) : ∀ (fs : List Rfc.Frame) (st : Rfc.St) (i : Nat) (evs : List Rfc.Ev),
+    (∀ f ∈ fs, f.masked = rg.server) →
+    Rfc.run { rg with strict := true } st i evs fs = Rfc.run { rg with strict := false } st i evs fs := by
+  intro fs
+  induction fs with
+  | nil => intro st i evs _; simp [Rfc.run]
+  | cons f fs ih =>
+    intro st i evs h
+    have ih' := fun st i evs => ih st i evs (fun f hf => h f (List.mem_cons_of_mem _ hf))
+    rw [Rfc.run, Rfc.run, hdrCheck_strict rg st f (h f (List.mem_cons_self ..))]
+    simp only [ih']
+
+/-- C13 at full strength on correctly masked input: when every frame is masked the way §5.1 demands for the receiving
+    role, Parse agrees with the RFC predicate that does enforce the masking direction -/
+theorem c13_masked (g : Cfg) (e : Env) (hl : g.readLimit = 0) (segs : List Bytes)
+    (hm : ∀ f ∈ Rfc.decode (segs.flatten.length + 1) segs.flatten, f.masked = !g.isClient) :
+    Agree g e 0 (feed g e {} segs [])
+      (Rfc.run (rfcStrict g e) {} 0 [] (Rfc.decode (segs.flatten.length + 1) segs.flatten)) := by
+  have := run_strict (rfcOf g e) _ {} 0 [] hm
+  have e1 : rfcStrict g e = { rfcOf g e with strict := true } := rfl
+  have e2 : rfcOf g e = { rfcOf g e with strict := false } := rfl
+  rw [e1, this, ← e2]
+  exact c13_partial g e hl segs
+
+/- Full statement (does NOT hold on the current tree — known finding "ws-mask-direction"):
+   theorem c13 (g e) (hl : g.readLimit = 0) (segs) :
+     Agree g e 0 (feed g e {} segs []) (Rfc.run (rfcStrict g e) {} 0 [] (Rfc.decode (segs.flatten.length + 1) segs.flatten)) -/
+
+def srvCfg : Cfg := { enableCompression := false, writeCompression := false, msgLimit := 0, readLimit := 0, maxFrame := 32768, isClient := false }
+def nullEnv : Env := { keyAt := fun _ => [0, 0, 0, 0], deflate := id, inflate := fun _ => ⟨[], []⟩ }
+
+/-- C13 counterexample (masking direction, RFC 6455 §5.1): a server endpoint is sent the unmasked text frame "a".
+    The RFC says fail the connection; Parse delivers the message and keeps the connection open. -/
+theorem c13_mask_counterexample :
+    (Rfc.run (rfcStrict srvCfg nullEnv) {} 0 [] (Rfc.decode 4 [0x81, 1, 0x61])).verdict = .reject .mask ∧
+    (feed srvCfg nullEnv {} [[0x81, 1, 0x61]] []).acts = [.deliver 1 [0x61]] ∧
+    (feed srvCfg nullEnv {} [[0x81, 1, 0x61]] []).err = none ∧
+    (feed srvCfg nullEnv {} [[0x81, 1, 0x61]] []).s.k.connClosed = false := by
+  decide
+
+/-- C13 (ping → pong): a ping is answered by a pong carrying the same payload … -/
+theorem c13_ping_pong (g : Cfg) (e : Env) (k : K) (p : Bytes) (fin r1 : Bool) (hk : k.connClosed = false) (hp : p.length ≤ 125) :
+    applyFrame g e k 9 p fin r1 =
+      .next { k with nwrites := k.nwrites + 1 } [.write (encodeFrame g.isClient (e.keyAt k.nwrites) 10 true true p false)] :=
+  apply_ping g e k p fin r1 hk hp
+
+/-- … and a close frame is answered by a close frame (an echo when its payload is valid), after which the conn is closed -/
+theorem c13_close_close (g : Cfg) (e : Env) (k : K) (p : Bytes) (fin r1 : Bool) (hk : k.connClosed = false) (hp : p.length ≤ 125) :
+    ∃ a k', applyFrame g e k 8 p fin r1 = .next k' (a ++ [.closeConn]) ∧ k'.connClosed = true ∧ NoDeliver a ∧
+      ((p.length = 0 ∨ (p.length ≥ 2 ∧ validCloseCode (WsF.beDec (p.take 2)) = true ∧ utf8Valid (p.drop 2) = true)) →
+        a = [.write (encodeFrame g.isClient (e.keyAt k.nwrites) 8 true true p false)]) :=
+  apply_close g e k p fin r1 hk hp
+
+/-- C13 (decoder): on every byte string `nextFrame` is the RFC's base-framing decoder followed by the checks —
+    non-minimal length encodings, 64-bit lengths with the top bit set and all flag combinations included -/
+theorem c13_decoder (g : Cfg) (s : S) (hw : Within g s) : nextFrame g s = judge g s (Rfc.decode1 s.cache) :=
+  nextFrame_eq_judge g s hw
 
 /-- C13 (tables, regenerated from the code on every run): nbio's `validFrame` is the model's, over all 1024 rows -/
 theorem c13_validFrame_table : Gen.validFrameTable = modelFrameTable := validFrame_table
@@ -14,5 +114,10 @@ theorem c13_frame_rfc :
 /-- C13 (close codes): nbio's `validCloseCode` (all 65 536 codes, regenerated) is the model's, which is RFC 6455 §7.4 -/
 theorem c13_closeCode_table (c : Nat) : validCloseCode c = inIntervals Gen.validCloseIntervals c := validCloseCode_table c
 theorem c13_closeCode_rfc (c : Nat) : validCloseCode c = Rfc.closeCodeOk c := validCloseCode_rfc c
+
+/-! non-vacuity: a fragmented text message with a ping in between, then an invalid close code -/
+example : (feed srvCfg nullEnv {} [[0x01, 1, 0x61, 0x89, 0], [0x80, 1, 0x62, 0x88, 2, 0x03, 0xf7]] []).acts.length = 4 := by decide
+example : (Rfc.run (rfcOf srvCfg nullEnv) {} 0 [] (Rfc.decode 13 [0x01, 1, 0x61, 0x89, 0, 0x80, 1, 0x62, 0x88, 2, 0x03, 0xf7])).verdict
+    = .reject .closeCode := by decide
 
 end Ws
